@@ -7,6 +7,7 @@ INVARIANT I_AsGiven
 INVARIANT I_NextToFile
 INVARIANT I_FallBack
 INVARIANT I_Determined
+INVARIANT I_Content
 INVARIANT I_Face
 POSTCONDITION Witnesses
 CHECK_DEADLOCK FALSE
